@@ -24,7 +24,9 @@ PROPS = {
                     'distinct = distinct (class, argument values, channel)'},
     'C02': {'mc': _mc({'module': 'MC_Props', 'cfg': 'MC_Props', 'tier': 'both'}),
             'rule': 'one event per content-header round trip; quick: each of the 8192 presence subsets once + random'},
-    'C18': {'mc': _mc({'module': 'MC_Frames', 'cfg': 'MC_Frames', 'tier': 'both'}),
+    'C18': {'mc': _mc({'module': 'MC_Frames', 'cfg': 'MC_Frames', 'tier': 'both'},
+                      {'module': 'MC_Content', 'cfg': 'MC_Content_small', 'tier': 'quick', 'actions': ['Publish', 'Transmit', 'Heartbeat']},
+                      {'module': 'MC_Content', 'cfg': 'MC_Content', 'tier': 'thorough'}),
             'rule': 'one event per body / heartbeat / protocol-header round trip; distinct = distinct (payload, channel)'},
     'C04': {'mc': _mc({'module': 'MC_Frames', 'cfg': 'MC_Frames', 'tier': 'both'}),
             'rule': 'one event per encoder call (frame.marshal of all five kinds, Frame.marshal(), Properties.marshal(), '
